@@ -389,6 +389,10 @@ def analyse_task(task: Tuple[str, str, str, bool, int, List[str]]) -> Dict[str, 
     chars = [eng.decls.const(f"c{i}", smt.INT) for i in range(n)]
     pre = domain(tname, chars)
     doc, gen = spec_alts(tname, chars)
+    # the alternatives of the specification occur once per path in the merged queries: name them once (raw terms are
+    # kept for the solver-free compatibility test with each path condition)
+    doc = [(smt.share(c), d, c) for c, d in doc if is_sym(c) or c]
+    gen = [(smt.share(c), d, c) for c, d in gen if is_sym(c) or c]
     row = {"Id_1": SV("str", CStr.lit("k"), False), X: SV("str", CStr(chars), False)}
     eng.assume = list(pre)
     eng.pruner = CharPruner([c.sx for c in chars], LO, HI, product_limit=60000)
@@ -417,14 +421,21 @@ def analyse_task(task: Tuple[str, str, str, bool, int, List[str]]) -> Dict[str, 
             if p.kind == "abort":
                 continue
             o: loadvc.RowOutcome = p.value
+            def live(alts: List[Any]) -> List[Any]:
+                # alternatives of the specification that are incompatible with this path (decided without the solver)
+                # cannot contribute to the goal on it
+                base = list(pre) + list(p.pc)
+                return [a for a in alts if not is_sym(a[2]) or eng.pruner.feasible(base, a[2]) is not False]
             if which == "sound":
                 if not o.accepted:
                     continue
-                goal = Or(*[And(c, stored_is(tname, o.stored[X], den, chars, eng)) for c, den in gen]) if gen else False
+                g_ = live(gen)
+                goal = Or(*[And(c, stored_is(tname, o.stored[X], den, chars, eng)) for c, den, _r in g_]) if g_ else False
             else:
                 if o.accepted:
                     continue
-                goal = Not(Or(*[c for c, _d in doc])) if doc else True
+                d_ = live(doc)
+                goal = Not(Or(*[c for c, _d, _r in d_])) if d_ else True
             if not is_sym(goal) and goal:
                 continue
             bad.append(And(*p.pc, Not(goal)))
@@ -537,7 +548,14 @@ def main() -> None:  # noqa: C901
         if only and only not in f"{k[0]}::{k[1]}::{k[2]}":
             continue
         rep.setdefault((k[1], sig_of[k]), k)
-    tasks = [(k[0], k[1], k[2], k[3], n, sorted(known)) for k in rep.values() for n in lengths(k[1], chk.tier)]
+    def lens(k: Tuple[str, str, str, bool]) -> List[int]:
+        ls = lengths(k[1], chk.tier)
+        if chk.tier == "quick" and k[1] == "Time_Period" and (k[2], k[3]) != ("Measure", True):
+            # the 10-character analysis (full dates: calendar reasoning, ~1 min of solver time each) runs for one
+            # program per load path in the quick tier; the variants differ only in NOT NULL / NULLIF('') handling
+            ls = [n for n in ls if n < 10]
+        return ls
+    tasks = [(k[0], k[1], k[2], k[3], n, sorted(known)) for k in rep.values() for n in lens(k)]
     tasks.sort(key=lambda t: -t[4])
     results: Dict[Tuple[str, str, str, bool, int], Dict[str, Any]] = {}
     for t, r in zip(tasks, pool.map(analyse_task, tasks)):
@@ -560,7 +578,7 @@ def main() -> None:  # noqa: C901
             ob = chk.ob(f"{fn}::{which}::{tag}", fn, clauses[which])
             ob.status = DISCHARGED
             backends, setaside = set(), []
-            for n in lengths(tname, chk.tier):
+            for n in lens(rk):
                 r = results[rk + (n,)][which]
                 ob.seconds += r["seconds"] if rk == (kind, tname, role, nullable) else 0.0
                 backends.update(r["backends"])
@@ -576,7 +594,7 @@ def main() -> None:  # noqa: C901
                     ob.backend = r.get("backend", "")
             if ob.status == DISCHARGED:
                 ob.backend = "+".join(sorted(b for b in backends if b)) or "const-fold"
-                ob.detail = (f"lengths {lengths(tname, chk.tier)}: merged path queries all unsat{shared}" +
+                ob.detail = (f"lengths {lens(rk)}: merged path queries all unsat{shared}" +
                              (f"; set aside as known findings: {sorted(set(setaside))[:6]}" if setaside else ""))
         # NULL cell
         nob = chk.ob(f"{fn}::null::{tag}", fn, f"[{tag}] a NULL cell is stored as NULL iff the component is a nullable "
